@@ -104,6 +104,19 @@ pub open spec fn token_ok(t: MarkdownToken, ls: Seq<Seq<char>>, number: int, con
         }
     }
 }
+/// the remaining lines start a front matter or a fence that is never closed
+pub open spec fn unterminated(rem: Seq<Seq<char>>, cs: bool) -> bool {
+    rem.len() > 0 && if !cs && rem[0] == dashes() { forall|j: int| 1 <= j < rem.len() ==> #[trigger] rem[j] != dashes() }
+    else { cbs(rem[0]) is Some && forall|j: int| 1 <= j < rem.len() ==> !is_prefix_of(cbs_ticks(rem[0]), #[trigger] rem[j]) }
+}
+/// a comment line (`#…`) never closes a fence
+pub proof fn lemma_comment_not_fence(l: Seq<char>, c: Seq<char>)
+    requires cbs(l) is Some, is_comment_line(c),
+    ensures !is_prefix_of(cbs_ticks(l), c),
+{
+    if l != backticks3() { assert(tick_run(l) >= 3); assert(l.len() > 0 && l[0] == '`'); assert(l.take(tick_run(l))[0] == l[0]); }
+    assert(cbs_ticks(l).len() > 0 && cbs_ticks(l)[0] == '`');
+}
 /// the iterator has consumed the first (number - number0) lines of r0
 pub open spec fn consumed_ok(rem: Seq<Seq<char>>, r0: Seq<Seq<char>>, number: int, number0: int) -> bool {
     0 <= number - number0 <= r0.len() && rem =~= r0.skip(number - number0)
